@@ -23,6 +23,7 @@ def run(rep, tier):
     vcrun.run_functions(rep, FUNCS + EXC, tier)
     # the quantifiers group the operand by its inferred category and raise CannotBeRepeatedException off its repeatable flag:
     # both VALUES are __infer_type's assumed contract
+    _f7.decide_classes(rep)      # F8: every bracket text is typed Class (an atom for concatenation and repetition)
     _f7.decide(rep)      # F7: type and repeatable flag of EVERY literal string (regular-language facts about the real regexes)
     _b1.run(rep, tier, ["category", "flag", "total"], "category (is the operand an atom: (?:P) or P before the suffix) and repeatable flag "
             "of every emitted text (a wrongly refused operand has no repetitions at all)")
